@@ -10,9 +10,21 @@ SPECS['C16'] = {
         {'pkg': 'internal/plugincommon', 'pkgname': 'plugincommon',
          'src': 'harness/internal/plugincommon/c16_test.go', 'test': 'TestVerif_C16_sched',
          'sinks': {'C16_sched': 'sched_judge'}, 'n': {'quick': 400, 'thorough': 20000}},
+        {'pkg': 'commit', 'src': 'harness/commit/c16_test.go', 'test': 'TestVerif_C16_commit', 'fakes': True,
+         'sinks': {'C16_rep_commit': 'rep_judge'}, 'n': {'quick': 60, 'thorough': 3000}},
+        {'pkg': 'commit', 'src': 'harness/commit/c16_test.go', 'test': 'TestVerif_C16_commit_gates', 'fakes': True,
+         'sinks': {'C16_gate_commit': 'gate_judge'}, 'n': {'quick': 300, 'thorough': 10000}},
+        {'pkg': 'execute', 'src': 'harness/execute/c16_test.go', 'test': 'TestVerif_C16_exec', 'fakes': True,
+         'sinks': {'C16_rep_exec': 'rep_judge'}, 'n': {'quick': 60, 'thorough': 3000}},
+        {'pkg': 'execute', 'src': 'harness/execute/c16_test.go', 'test': 'TestVerif_C16_exec_gates', 'fakes': True,
+         'sinks': {'C16_gate_exec': 'gate_judge'}, 'n': {'quick': 300, 'thorough': 10000}},
     ],
     'rule': 'sched: oracle-id sets of size 0..31 (uint8 ids) with writer pattern classes none/one/some/all/err/big, '
-            'each evaluated in two random orders; non-trivial = >=2 oracles and >=1 destination writer; distinct by full input',
+            'each evaluated in two random orders; rep_*: Plugin.Reports of commit/execute on 24 fresh instances per DON '
+            '(sizes 2..10, 4, 31; writer subsets; failing home chain; empty outcomes), distinct answers collected; '
+            'gate_*: accept/transmit callbacks over digest combinations (equal, zero, different), reader/codec failures, '
+            'empty and non-empty reports, curse answers. non-trivial = >=2 oracles and >=1 destination writer (sched/rep), '
+            'every gate case; distinct by full input',
     'trusted': ['ChainSupport.SupportsDestChain answers are an oracle (scripted fake)',
                 'time.Duration multiplication assumed not to overflow int64 (mult <= 5s, <= 256 oracles)'],
     'assumptions': ['libocr hands every oracle the same outcome bytes; oracleIDToP2PID has the same key set on every oracle'],
